@@ -7,3 +7,5 @@ import PolyVerif.Props.C10
 import PolyVerif.Props.C13
 import PolyVerif.Props.C08
 import PolyVerif.Props.C19
+import PolyVerif.Props.C06
+import PolyVerif.Props.C07
